@@ -248,7 +248,17 @@ SEEDED["C12"] = [
     (ZER, "    p = (j-(n*(n+1))/2.)", "    p = (j-(n*(n-1))/2.)", "Z3"),
     (ZER, "math.factorial", "numpy.math.factorial", "Z1"),
 ]
-BENIGN["C12"] = []
+SEEDED["C12"] += [
+    (ZER, "                if ((j+1) % 2) == 1:\n                    gamx[i,j] = 0.0", "                if ((j+1) % 2) == 0:\n                    gamx[i,j] = 0.0", "Z8"),
+    (ZER, "            if abs(m[j]-m[i]) != 1:\n                gamy[i,j] = 0.0", "            if abs(m[j]-m[i]) > 1:\n                gamy[i,j] = 0.0", "Z8"),
+    (ZER, "                gamy[i,j] = numpy.sqrt(2.0)*numpy.sqrt(float(n[i]+1)*float(n[j]+1))", "                gamy[i,j] = 2.0*numpy.sqrt(float(n[i]+1)*float(n[j]+1))", "Z8"),
+    (ZER, "            elif m[j]==(m[i]+1):\n                if ((i+1) % 2) == 1:", "            elif m[j]==(m[i]+1):\n                if ((i+1) % 2) == 0:", "Z8"),
+    (ZER, "                    numpy.sum(Zs[z]**2)/numpy.sum(circle(N/2., N)))", "                    numpy.sum(Zs[z]**2)/numpy.sum(circle(N//2, N)))", "Z5"),
+]
+BENIGN["C12"] = [
+    (ZER, "            # Rule d:\n            if m[i]==0:\n                pass    # line 1\n            elif m[j]==0:\n                pass    # line 1\n            elif m[j]==(m[i]+1):",
+     "            # Rule d:\n            if m[i]==0 or m[j]==0:\n                pass\n            elif m[j]==(m[i]+1):"),
+]
 
 SEEDED["C14"] = [
     (PUP, "mask = x * x + y * y <= radius * radius", "mask = x * x + y * y < radius * radius", "M1"),
